@@ -21,15 +21,15 @@ NA_PURE = {
 CLAIMED = {
  "C07": dict(engine="compile_determinism", category="exploration", ref="DESIGN.md section 4 C07",
    text="seeded search over thread interleavings at every object-id allocation, std HashMap keys, counter start values and prior-work histories; every job output compared with a quiet-world reference digest",
-   note="samples schedules/hash seeds/histories, does not enumerate them; shuttle coroutines stand in for OS threads (only the AtomicU64 counter is shared); job pool limited to corpus tables, generated layout/gvar/IVS/cmap inputs and klippa subsets",
+   note="samples schedules/hash seeds/histories, does not enumerate them; shuttle coroutines stand in for OS threads (only the AtomicU64 counter is shared); a second part runs the same jobs in freshly started child processes under other hash seeds and compares digests across processes; job pool: corpus tables, generated layout (pair/mark/single pos, reverse-chain subst)/gvar/IVS/cmap inputs, FontBuilder, klippa subsets and a font extended through the IFT client",
    technique="deterministic simulation: shuttle-scheduled compile tasks with seeded schedule, hash-seed and history injection; digest-agreement oracle"),
  "C18": dict(engine="iftworld", category="fault_enumeration", ref="DESIGN.md section 4 C18/C19",
    text="IFT deployment simulator (real client, simulated server/network/disk/decoder) checked after every apply against a specification-level model; decoder failure enumerated at every call index x every error kind inside each sampled world; transport, crash and persist faults sampled",
-   note="worlds are generated (glyf/loca and gvar carriers, format-1/2 maps, depth <= 3); brotli streams are stored meta-blocks through the real C decoder; model and encoder written from the spec and calibrated on the unchanged tree; two genuine defects are listed in known_findings.json",
+   note="worlds are generated (glyf/loca, gvar, CFF and CFF2 carriers incl. offset-size threshold worlds, format-1/2 maps, depth <= 3); brotli streams are stored meta-blocks through the real C decoder; model and encoder written from the spec and calibrated on the unchanged tree; two genuine defects are listed in known_findings.json",
    technique="deterministic simulation with fault injection: discrete-event IFT client/server world, reference-model refinement check, exhaustive decoder-fault enumeration per world"),
  "C19": dict(engine="iftworld", category="exploration", ref="DESIGN.md section 4 C18/C19",
    text="at every font state visited by simulated extension runs (fault-free and under transport/decoder/crash faults) the offered patch set is compared with a specification model for the driver's and extra definitions, monotonicity is checked on real outputs, selected groups are checked against the grouping/preference rules, and bounded progress is enforced",
-   note="selection preference is checked in the stated order (codepoints, features, design space, entry order) with incomparable design spaces skipped; unique URIs per world",
+   note="selection preference is checked in the stated order (codepoints, features, design space, entry order) with incomparable design spaces skipped; worlds include URIs shared between entries and (twin-table probe) between the IFT and IFTX tables",
    technique="deterministic simulation: extension histories to fixpoint in a simulated client/server world, model-based selection oracle and bounded-liveness check"),
 }
 try:
